@@ -123,10 +123,72 @@ pub fn case(rng: &mut Rng, out: &mut Out, maxlen: usize) {
     );
 }
 
+/// rule-level bounded repetition written x{lo,hi} in Lark; the model gets the naive expansion
+/// (one alternative per count), so the builder's factorised encoding is compared with the plain meaning
+pub fn rep_case(rng: &mut Rng, out: &mut Out) {
+    let lo = rng.below(4);
+    let hi = lo + *rng.pick(&[0usize, 1, 2, 3, 5, 11, 12, 13, 14, 15, 16, 17, 20, 24]);
+    let two = rng.chance(1, 3) && hi <= 6;
+    let lark = format!(
+        "start: n0\nn0: \"b\" x{{{lo},{hi}}} \"c\"\nx: \"a\"{}\n",
+        if two { " | \"d\"" } else { "" }
+    );
+    let (ws, eos) = single_byte_vocab();
+    let env = make_env(&ws, eos, false);
+    let Ok(m) = new_matcher(&env, &lark, &[]) else {
+        out.count("grammar_rejected", 1);
+        return;
+    };
+    // specification side: n0 -> T1 n1 T2 ; n1 -> x^k for lo <= k <= hi ; n2 (= x) -> T0 [| T3]
+    let mut lexemes = vec![Rx::Lit("a".into()), Rx::Lit("b".into()), Rx::Lit("c".into())];
+    if two {
+        lexemes.push(Rx::Lit("d".into()));
+    }
+    let n1: Vec<Vec<Sym>> = (lo..=hi).map(|k| vec![Sym::N(2); k]).collect();
+    let mut n2 = vec![vec![Sym::T(0)]];
+    if two {
+        n2.push(vec![Sym::T(3)]);
+    }
+    let g = Gram { rules: vec![vec![vec![Sym::T(1), Sym::N(1), Sym::T(2)]], n1, n2], lexemes };
+    let alpha: Vec<u8> = if two { b"abcd".to_vec() } else { b"abc".to_vec() };
+    let maxlen = hi + 4;
+    let mut strings: Vec<Vec<u8>> = vec![];
+    let mut verdicts: Vec<bool> = vec![];
+    let mut stack: Vec<(Vec<u8>, llguidance::Matcher)> = vec![(vec![], m.deep_clone())];
+    while let Some((s, mut st)) = stack.pop() {
+        strings.push(s.clone());
+        verdicts.push(st.is_accepting().unwrap_or(false));
+        if s.len() >= maxlen || strings.len() > 1200 {
+            continue;
+        }
+        for &b in &alpha {
+            let mut c = st.deep_clone();
+            let mut s2 = s.clone();
+            s2.push(b);
+            if !c.is_stopped() && c.consume_token(b as u32).is_ok() {
+                stack.push((s2, c));
+            } else {
+                strings.push(s2);
+                verdicts.push(false);
+            }
+        }
+    }
+    out.count("repetition_grammars", 1);
+    out.case(
+        tagged("cfg", vec![g.to_sx(), list(strings.iter().map(|s| hex(s)).collect())]),
+        tagged("ok", verdicts.iter().map(|&b| boolean(b)).collect()),
+        true,
+    );
+}
+
 pub fn run(rng: &mut Rng, out: &mut Out, tier: &str) {
     let (n, maxlen) = if tier == "thorough" { (1500, 7) } else { (250, 5) };
     for i in 0..n {
         let mut r = rng.fork(i as u64);
         case(&mut r, out, maxlen);
+        if i % 4 == 0 {
+            let mut r = rng.fork(0x0500_0000 + i as u64);
+            rep_case(&mut r, out);
+        }
     }
 }
